@@ -24,6 +24,7 @@ import (
 	"path/filepath"
 	"reflect"
 	"regexp"
+	"strconv"
 	"strings"
 
 	"verif/harness/internal/filt"
@@ -1094,14 +1095,7 @@ func preds(e0 *env) []pred {
 			continue
 		}
 		add(pred{name: "File.Imports:" + p, ctor: "makeFileImportsFilter", kinds: "f", mk: func(v string) *filt.DExpr { return filt.Call("File.Imports", "", filt.Str(p)) },
-			fact: func(e *env, x ast.Expr) tri {
-				for _, im := range e.t.File.Imports {
-					if strings.Trim(im.Path.Value, "\"") == p {
-						return yes
-					}
-				}
-				return no
-			}})
+			fact: func(e *env, x ast.Expr) tri { return b2t(importsOf(e.t)[p]) }})
 	}
 	for _, re := range []string{"^target\\.go$", "_test\\.go$", "arget", "^/", "^b_"} {
 		re := re
@@ -1125,6 +1119,63 @@ func preds(e0 *env) []pred {
 	add(pred{name: "Deadcode", ctor: "makeDeadcodeFilter", kinds: "f", mk: func(v string) *filt.DExpr { return filt.Call("Deadcode", "") }})
 	return ps
 }
+
+// importsOf: the paths of the packages the (single-file) package imports, as go/types resolved them; every import spec must
+// unquote (strconv.Unquote: interpreted and raw string literals, escapes) to one of them.
+func importsOf(t *hutil.Target) map[string]bool {
+	out := map[string]bool{}
+	for _, im := range t.Pkg.Imports() {
+		out[im.Path()] = true
+	}
+	for _, spec := range t.File.Imports {
+		p, err := strconv.Unquote(spec.Path.Value)
+		if err != nil || !out[p] {
+			fmt.Fprintf(os.Stderr, "import spec %s of %s is not among go/types' imports %v\n", spec.Path.Value, t.Path, out)
+			os.Exit(3)
+		}
+	}
+	if len(out) != len(uniqueSpecs(t)) {
+		fmt.Fprintf(os.Stderr, "imports of %s: go/types has %d packages, the file %d distinct specs\n", t.Path, len(out), len(uniqueSpecs(t)))
+		os.Exit(3)
+	}
+	return out
+}
+
+func uniqueSpecs(t *hutil.Target) map[string]bool {
+	out := map[string]bool{}
+	for _, spec := range t.File.Imports {
+		if p, err := strconv.Unquote(spec.Path.Value); err == nil {
+			out[p] = true
+		}
+	}
+	return out
+}
+
+// importFiles: one small file per way of spelling import declarations (Go spec: ImportPath = string_lit, interpreted or raw;
+// a name, `.` or `_` before it; grouped or not; several declarations). Every file uses what it imports.
+var importFiles = []struct{ name, imports, uses string }{
+	{"plain", "import \"fmt\"\n", "var _ = fmt.Sprint"},
+	{"raw", "import `fmt`\n", "var _ = fmt.Sprint"},
+	{"group-raw-and-plain", "import (\n\t`os`\n\t\"strings\"\n)\n", "var _ = os.Exit\nvar _ = strings.ToUpper"},
+	{"group-raw-only", "import (\n\t`fmt`\n\t`io`\n)\n", "var _ = fmt.Sprint\nvar _ = io.EOF"},
+	{"alias", "import f \"fmt\"\nimport str `strings`\n", "var _ = f.Sprint\nvar _ = str.ToUpper"},
+	{"alias-named-like-another-package", "import os \"strings\"\n", "var _ = os.ToUpper"},
+	{"dot", "import . \"strings\"\n", "var _ = ToUpper"},
+	{"dot-raw", "import . `strings`\n", "var _ = ToUpper"},
+	{"blank", "import _ \"os\"\nimport _ `unsafe`\n", ""},
+	{"escapes", "import \"\\x66mt\"\nimport (\n\t\"\\u0069o\"\n\t\"st\\162ings\"\n)\n", "var _ = fmt.Sprint\nvar _ = io.EOF\nvar _ = strings.ToUpper"},
+	{"two-declarations", "import \"fmt\"\n\nimport (\n\t\"os\"\n)\n", "var _ = fmt.Sprint\nvar _ = os.Exit"},
+	{"subpackage-only", "import \"io/fs\"\nimport \"text/template\"\n", "var _ = fs.ValidPath\nvar _ = template.New"},
+	{"subpackage-raw", "import `io/fs`\nimport tt `html/template`\n", "var _ = fs.ValidPath\nvar _ = tt.New"},
+	{"twice", "import a \"fmt\"\nimport b `fmt`\n", "var _ = a.Sprint\nvar _ = b.Sprint"},
+	{"nothing", "", ""},
+	{"semicolons", "import (\"fmt\"; `os`)\n", "var _ = fmt.Sprint\nvar _ = os.Exit"},
+}
+
+// importPaths: the arguments of File().Imports(): the packages above, near misses (a prefix, a suffix, a last element, an alias
+// name) and the path spelled with its quotes
+var importPaths = []string{"fmt", "os", "strings", "io", "io/fs", "fs", "unsafe", "text/template", "html/template", "template", "f", "str", "tt",
+	"`fmt`", "\"fmt\"", "`os`", "`io/fs`", "\\x66mt", "nosuch/pkg", "fm", "mt"}
 
 // safe: an oracle that cannot answer (go/types panics on exotic operands such as tuples) makes no claim
 func safe(f func() tri) (r tri) {
@@ -1751,6 +1802,90 @@ func main() {
 			}
 			rules = append(rules, seq...)
 		}
+	}
+
+	// ---- File().Imports over files that spell their imports in every way the Go grammar allows; positive and negated
+	if *only == "" || strings.Contains("File.Imports", *only) {
+		var irules []*rule
+		var frules []filt.Rule
+		for k, ip := range importPaths {
+			ip := ip
+			for neg := 0; neg < 2; neg++ {
+				d := filt.Call("File.Imports", "", filt.Str(ip))
+				name := "File.Imports:" + ip
+				if neg == 1 {
+					d = filt.Not(d)
+					name = "!File.Imports:" + ip
+				}
+				j := 2*k + neg
+				irules = append(irules, &rule{kind: "imports", where: d, j: j,
+					out: &ruleOut{K: "rule", Name: name, Kind: "imports", Ctor: "makeFileImportsFilter", Src: d.Go(), Pattern: "p%d($x)", Mode: "typed", Obs: []obs{}}})
+				frules = append(frules, filt.Rule{Name: fmt.Sprintf("g%d", j), Pattern: fmt.Sprintf("p%d($x)", j), Where: d})
+			}
+		}
+		eng, lerr := filt.Load(t.Fset, filt.RulesFile("", frules))
+		if lerr != nil {
+			for _, r := range irules {
+				r.out.LoadErr = lerr.Error()
+			}
+		} else {
+			st := ruleguard.NewRunnerState(eng)
+			for fi, f := range importFiles {
+				var sb strings.Builder
+				fmt.Fprintf(&sb, "package imp%d\n\n%s\n%s\n\n", fi, f.imports, f.uses)
+				for j := range irules {
+					fmt.Fprintf(&sb, "func p%d(args ...interface{}) {}\n", j)
+				}
+				sb.WriteString("\nfunc sites() {\n")
+				for j := range irules {
+					fmt.Fprintf(&sb, "\tp%d(1)\n", j)
+				}
+				sb.WriteString("}\n")
+				ti, err := hutil.CheckTargetPkg(*tmp, fmt.Sprintf("imports/%s/x.go", f.name), []byte(sb.String()), fmt.Sprintf("example.com/imp%d", fi))
+				if err != nil {
+					fmt.Fprintln(os.Stderr, err)
+					os.Exit(3)
+				}
+				imported := importsOf(ti)
+				// the model's input: the spelling of every import path literal and what strconv.Unquote makes of it
+				specs := [][2]string{}
+				for _, spec := range ti.File.Imports {
+					v, _ := strconv.Unquote(spec.Path.Value)
+					specs = append(specs, [2]string{spec.Path.Value, v})
+				}
+				enc.Encode(map[string]interface{}{"k": "impfile", "index": fi, "name": f.name, "specs": specs})
+				// odd files run through one reused state (after the previous odd file), even ones with a fresh state
+				var state *ruleguard.RunnerState
+				if fi%2 == 1 {
+					state = st
+				}
+				reports, pmsg := hutil.Run(eng, ti, 0, "", state)
+				if pmsg != "" {
+					for _, r := range irules {
+						r.out.Panic = pmsg
+					}
+					break
+				}
+				acc := map[int]bool{}
+				for _, rep := range reports {
+					var j int
+					if _, err := fmt.Sscanf(rep.Group, "g%d", &j); err != nil || j < 0 || j >= len(irules) {
+						fmt.Fprintf(os.Stderr, "imports report cannot be attributed: %+v\n", rep)
+						os.Exit(3)
+					}
+					acc[j] = true
+				}
+				for j, r := range irules {
+					fact := imported[importPaths[j/2]]
+					if j%2 == 1 {
+						fact = !fact
+					}
+					r.out.Obs = append(r.out.Obs, obs{Site: fmt.Sprintf("file %s (state reused: %v): %s", f.name, state != nil, strings.Join(strings.Fields(f.imports), " ")),
+						Shape: "one", Verdict: acc[j], Node: -1, Facts: []int{int(b2t(fact))}, Nil: int(b2t(fact))})
+				}
+			}
+		}
+		rules = append(rules, irules...)
 	}
 
 	// ---- inputs of the Coq model: the probe expressions and sink contexts of column 0
